@@ -121,6 +121,7 @@ def rule_K_MUTATOR(ctx):
     san = f.hir_fn("set_atom_name", module="enum_narsese::term")
     ctx.fn(san)
     m = hir.top_match(san)
+    san_p = ([q["name"] for q in san["params"] if q.get("k") == "Binding" and q["name"] != "self"] + [None])[0]       # the new name: 1st parameter after self
     named = {v for v, s in st.items() if s == ["string"]}
     got_named, got_ok_nowrite, got_parse, wild_err = set(), set(), set(), False
     for v, arm, pat in hir.arms_by_variant(m):
@@ -135,7 +136,7 @@ def rule_K_MUTATOR(ctx):
         if "clear" in calls and "push_str" in calls:
             cl = hir.find_calls(b, "clear")[0]
             ps = hir.find_calls(b, "push_str")[0]
-            ok = field_path(cl["recv"]) == (binds[0],) and field_path(ps["recv"]) == (binds[0],) and field_path(ps["args"][0]) == ("new_name",) \
+            ok = field_path(cl["recv"]) == (binds[0],) and field_path(ps["recv"]) == (binds[0],) and field_path(ps["args"][0]) == (san_p,) \
                 and cl["line"] <= ps["line"] and hir.is_unit_ok(t)
             if ok:
                 got_named.add(v)
@@ -154,7 +155,7 @@ def rule_K_MUTATOR(ctx):
             t = hir.last_expr(arm["body"])
             ps = hir.find_calls(arm["body"], "parse")
             ok = t["k"] == "MethodCall" and t["method"] == "transform" and len(ps) == 1 and strip(t["recv"]) is ps[0] \
-                and (ps[0].get("def") or "").endswith("str>::parse") and field_path(ps[0]["recv"]) == ("new_name",) and "usize" in (ps[0].get("ty") or "")
+                and (ps[0].get("def") or "").endswith("str>::parse") and field_path(ps[0]["recv"]) == (san_p,) and "usize" in (ps[0].get("ty") or "")
             ctx.ob("K-MUTATOR", "set_atom_name Interval: the whole arm is new_name.parse::<usize>().transform(store, error)", ok,
                    "the accepted syntax must be exactly std's usize::from_str (optional '+', decimal digits, fits the word)")
     ctx.ob("K-MUTATOR", "set_atom_name renames exactly the String-storage atoms", got_named == named, "renames %s, String storage: %s" % (sorted(got_named), sorted(named)))
@@ -187,6 +188,7 @@ def rule_K_MUTATOR(ctx):
     pc = f.hir_fn("push_components", module="enum_narsese::term")
     ctx.fn(pc)
     om = hir.top_match(pc)
+    pc_p = ([q["name"] for q in pc["params"] if q.get("k") == "Binding" and q["name"] != "self"] + [None])[0]         # the pushed components: 1st parameter after self
     sc = strip(om["scrut"])
     ctx.ob("K-MUTATOR", "push_components dispatches on get_capacity()", sc["k"] == "MethodCall" and sc["method"] == "get_capacity", "")
     err_classes, inner = set(), None
@@ -208,7 +210,7 @@ def rule_K_MUTATOR(ctx):
                 continue
             binds = hir.pat_bindings(pat)
             ex = hir.find_calls(arm["body"], "extend")
-            if len(ex) == 1 and field_path(ex[0]["args"][0]) == ("terms",) and hir.is_unit_ok(hir.last_expr(arm["body"])):
+            if len(ex) == 1 and field_path(ex[0]["args"][0]) == (pc_p,) and hir.is_unit_ok(hir.last_expr(arm["body"])):
                 tgt = field_path(ex[0]["recv"])
                 pos = binds.index(tgt[0]) if tgt and tgt[0] in binds else None
                 if pos is not None and st[v][pos] == "vec":
